@@ -1590,6 +1590,17 @@ def gen_size_exact(rng, kts=("k256", "libsecp", "ed", "comb"), targets=range(296
                             steps.append({"op": "decode", "h": "r", "kt": kt, "input": {"rec": {"seq": sq, "pairs": small, "sig": {"by": own}}}, "tag": "sizex_fill_%d" % target})
                             steps.append({"op": "call", "h": "r", "m": m, "args": a2, "signer": own, "obs": obs})
                             break
+        # always: the builder aimed at every result size around the limit (filler chosen so that the built record -- id,
+        # the signer's key, an address, the filler -- has exactly the target size), also built twice from one builder
+        for sq in ([1], [127], [255, 255]):
+            for target in targets:
+                for n in range(100, 260):
+                    ps = sorted(small + [[B("ip"), enc_str([10, 0, 0, 1])], [B("zpad"), enc_str([0xCC] * n)]], key=lambda p: bytes(p[0]))
+                    if rec_len(sq, ps) == target:
+                        steps.append({"op": "build", "h": "b", "kt": kt, "signer": own, "obs": obs, "rebuild": target % 2 == 0, "calls2": [],
+                                      "calls": [{"m": "seq", "seq": sq}, {"m": "ip4", "ip": [10, 0, 0, 1]},
+                                                {"m": "add_value", "key": B("zpad"), "val": {"ty": "bytes", "v": [0xCC] * n}}]})
+                        break
         for m, a, sq, target in combos:
             a = dict(a)
             if a.get("pk_of") == "OWN":
